@@ -657,6 +657,50 @@ def reentrant_purity(ctx, codes, jobs, rng, runs, cls="reentrant_calls", max_poi
         hooks.uninstall()
 
 
+def held_library_locks(extra_objects=(), release=True):
+    """Quiescent-point invariant for the failpoint monitors: while no call into the library is active, every mutex the library owns is free.
+    Looks at the module globals of the ecdsa package (locks created at import time) and at the attributes of `extra_objects` (per-object
+    locks).  Returns the names of those that are held - a later call that needs one would block for ever, which no finite run can observe
+    as anything but 'not yet returned'; the held lock at rest is the observable.  With release=True the held locks are released after being
+    noted (harness clean-up, so that the shard can go on: the process would otherwise block in its own next scenario)."""
+    out = []
+    found = []
+
+    def is_held(v):
+        try:
+            if hasattr(v, "locked") and callable(v.locked) and hasattr(v, "acquire") and hasattr(v, "release"):
+                return bool(v.locked())
+            if hasattr(v, "_is_owned") and hasattr(v, "acquire"):
+                return bool(v._is_owned())
+        except Exception:
+            return False
+        return False
+    for mname, mod in list(sys.modules.items()):
+        if mname == "ecdsa" or mname.startswith("ecdsa."):
+            for k, v in list(getattr(mod, "__dict__", {}).items()):
+                if is_held(v):
+                    out.append("%s.%s" % (mname, k))
+                    found.append(v)
+    for o in extra_objects:
+        for k, v in list(getattr(o, "__dict__", {}).items()):
+            if is_held(v):
+                out.append("%s.%s" % (type(o).__name__, k))
+                found.append(v)
+    if release:
+        for v in found:
+            for _ in range(64):
+                try:
+                    v.release()
+                except Exception:
+                    break
+                try:
+                    if not (v.locked() if hasattr(v, "locked") else v._is_owned()):
+                        break
+                except Exception:
+                    break
+    return out
+
+
 def fault_purity(ctx, codes, jobs, rng, runs, cls="after_interrupted_call", max_points=10, exc_types=(KeyboardInterrupt, MemoryError)):
     """Functions that are pure by contract: call A is interrupted (KeyboardInterrupt / MemoryError raised at one of its line events - what
     Ctrl-C or an allocation failure does), then A again and another call B run undisturbed on the same thread; both must give their
@@ -715,6 +759,10 @@ def fault_purity(ctx, codes, jobs, rng, runs, cls="after_interrupted_call", max_
                     continue
                 ctx.case(cls, key="%s->%s|%d" % (A[0], B[0], min(k, 12)), nontrivial=True)
                 role = "after %s was interrupted by %s at its line event %d" % (A[0], et.__name__, k)
+                held = held_library_locks()
+                if held:
+                    ctx.violation("lock_left_held_by_interrupted_call:" + A[0], "%s interrupted by %s at its line event %d leaves %s held although no call is active: the next call that needs it never returns" % (A[0], et.__name__, k, ", ".join(held)), dict(job=A[0], point=k, locks=held))
+                    return
                 judge(B, role)
                 judge(A, role)
     finally:
@@ -787,6 +835,10 @@ def fault_injection(ctx, codes, cases, rng, cls="fault_injection", max_points=30
                     ctx.count(cls + ".fault_propagated")
                 else:
                     ctx.count(cls + ".fault_relabelled_as_" + type(outcome[1]).__name__)
+                held = held_library_locks()
+                if held:
+                    ctx.violation("lock_left_held_by_interrupted_operation:" + label, "%s interrupted by %s at line event %d of %d leaves %s held although no call is active: the next operation that needs it never returns" % (label, et.__name__, k, N, ", ".join(held)), dict(case=label, point=k, of=N, exc=et.__name__, locks=held))
+                    return
                 try:
                     bad = after()
                 except Exception as e:
